@@ -33,6 +33,7 @@ func VerifResp_PerPeerLimit() {
 		}
 	}
 	_ = running
+	cancelled := map[key]bool{}
 	desc := ""
 	for r := 0; r < nreq; r++ {
 		p := pX
@@ -40,8 +41,33 @@ func VerifResp_PerPeerLimit() {
 			p = pY
 		}
 		k := key{p, kit.ReqID(r)}
-		mode := verifrt.Choose("start-mode", 3)
+		nmodes := 3
+		if verifrt.Param("CANCELSTART", 0) == 1 {
+			nmodes = 4
+		}
+		mode := verifrt.Choose("start-mode", nmodes)
 		switch mode {
+		case 3: // cancelled by local command after a worker popped its task and before the manager handed out the task's data
+			e.ReqVerdict[k] = HookAccept
+			target := kit.ReqID(r)
+			// (the peer's connection is slow: the cancellation's final message is
+			// still unsent, so the response is still tracked, when the worker
+			// gets its answer)
+			if e.S.Net.SendGate == nil {
+				e.S.Net.SendGate = map[peer.ID]*kit.Gate{}
+			}
+			if e.S.Net.SendGate[p] == nil {
+				e.S.Net.SendGate[p] = kit.NewGate()
+			}
+			e.OnStartTask = func(id graphsync.RequestID, _ peer.ID) {
+				if id == target && !cancelled[k] {
+					cancelled[k] = true
+					verifrt.Cover("cancelled-between-pop-and-start")
+					go func() { _ = e.RM.CancelResponse(e.Ctx, target) }()
+					verifrt.Quiesce()
+				}
+			}
+			e.NewRequest(p, r)
 		case 0:
 			e.ReqVerdict[k] = HookAccept
 			e.NewRequest(p, r)
@@ -68,16 +94,24 @@ func VerifResp_PerPeerLimit() {
 		}
 	}
 	gate.Open()
+	for _, g := range e.S.Net.SendGate {
+		g.Open()
+	}
 	Drain()
 	verifrt.Eventf("%s max X=%d Y=%d", desc, maxRunning[pX], maxRunning[pY])
 	for r := 0; r < nreq; r++ {
 		for _, p := range []peer.ID{pX, pY} {
 			k := key{p, kit.ReqID(r)}
-			if e.ReqHookCalls[k] > 0 {
+			if e.ReqHookCalls[k] > 0 && !cancelled[k] {
 				verifrt.Assert(len(e.Completed[k]) == 1 && e.Completed[k][0] == graphsync.RequestCompletedFull, "C21 a queued request was never executed to completion")
 				verifrt.Cover("request-completed")
 			}
 		}
 	}
+	// C23: at this quiescent point the reported states agree with the work
+	// queue and nothing is active or pending any more
+	checkDiagnostics(e, []peer.ID{pX, pY}, "end")
+	st := e.TQ.Stats()
+	verifrt.Assert(st.Active == 0 && st.Pending == 0, "C23 work queue reports active or pending tasks after every response ended")
 	verifrt.Reached("end-perpeer")
 }
